@@ -21,6 +21,10 @@ Theorem C20_lune_kernel : forall a b c, c <= b <= a -> 0 < a * a + b * b + c * c
 Proof. exact cE_gd_equiv. Qed.
 Print Assumptions C20_lune_kernel.
 
+Theorem C20_tape_tensor_kernel : forall g d k h s, -1 <= h <= 1 -> cTape_MT6 g d k h s = Tape_MT6 g d k h s.
+Proof. exact cTape_MT6_equiv. Qed.
+Print Assumptions C20_tape_tensor_kernel.
+
 Theorem C20_strike_dip_rake_kernel_partial : forall n0 n1 n2 u0 u1 u2,
   n0 * n0 + n1 * n1 + n2 * n2 = 1 -> u0 * u0 + u1 * u1 + u2 * u2 = 1 -> n2 <= 0 ->
   cN_SDR n0 n1 n2 u0 u1 u2 = FP_SDR n0 n1 n2 u0 u1 u2.
